@@ -149,19 +149,33 @@ ReproOmits == {<<117, 115, 101, 114, 45, 97, 103, 101, 110, 116>>, <<97, 99, 99,
                <<97, 99, 99, 101, 112, 116, 45, 101, 110, 99, 111, 100, 105, 110, 103>>, <<99, 111, 110, 110, 101, 99, 116, 105, 111, 110>>,
                <<99, 111, 110, 116, 101, 110, 116, 45, 108, 101, 110, 103, 116, 104>>, <<116, 114, 97, 110, 115, 102, 101, 114, 45, 101, 110, 99, 111, 100, 105, 110, 103>>}
 (* omitted = the carrier is one of the headers the reproduction command leaves out *)
-MustCarryBy(route, sink, omitted) ==
-    IF route \in {"resp-set-cookie", "resp-header"} THEN sink \in {"vcr", "har"}
-    ELSE IF route = "url-userinfo" THEN TRUE
+(* FATE of the request is a dimension of every flow: "answered" (a response came back) or "no-response" (transport-level fault:
+   connection reset / nothing received).  What must be ABSENT does not depend on it - a request that was never answered is still
+   written to the cassettes and its credentials are still secrets.  What must be PRESENT does: without a response there is no
+   failure report (no reproduction command, no JUnit message) and no response data at all; the request itself is still carried by
+   both cassettes and the console still shows the base URL / the schema location. *)
+Fates == {"answered", "no-response"}
+MustCarryBy(route, sink, omitted, fate) ==
+    IF route \in {"resp-set-cookie", "resp-header"} THEN fate = "answered" /\ sink \in {"vcr", "har"}
+    ELSE IF route = "url-userinfo" THEN fate = "answered" \/ sink \in {"console", "vcr", "har"}
     ELSE IF route \in {"schema-userinfo", "schema-query"} THEN sink = "console"      \* the "Loaded specification from ..." line
-    ELSE IF route = "requests-auth" THEN sink = "curl" /\ ~omitted   \* Python API: Case.as_curl_command / the failure report's curl sample
+    ELSE IF route = "requests-auth" THEN fate = "answered" /\ sink = "curl" /\ ~omitted   \* Python API: Case.as_curl_command / the failure report's curl sample
+    ELSE IF fate = "no-response" THEN sink \in {"vcr", "har"}
     ELSE IF route \in {"user-header", "gen-header"} /\ omitted THEN sink \in {"vcr", "har"}
     ELSE sink \in {"curl", "junit", "vcr", "har"}
-ExpectedBy(route, sink, sanitize, sens, omitted) ==
+ExpectedBy(route, sink, sanitize, sens, omitted, fate) ==
     IF sanitize /\ sens THEN "absent"
-    ELSE IF MustCarryBy(route, sink, omitted) THEN "present" ELSE "U"
+    ELSE IF MustCarryBy(route, sink, omitted, fate) THEN "present" ELSE "U"
 Omitted(name) == Lower(name) \in ReproOmits
-MustCarry(route, sink, name) == MustCarryBy(route, sink, Omitted(name))
-Expected(route, sink, name, sanitize, cfg) == ExpectedBy(route, sink, sanitize, SensCarrier(route, name, cfg), Omitted(name))
+MustCarry(route, sink, name) == MustCarryBy(route, sink, Omitted(name), "answered")
+ExpectedF(route, sink, name, sanitize, cfg, fate) == ExpectedBy(route, sink, sanitize, SensCarrier(route, name, cfg), Omitted(name), fate)
+Expected(route, sink, name, sanitize, cfg) == ExpectedF(route, sink, name, sanitize, cfg, "answered")
+(* SHAPE of URL userinfo is a dimension of the carrier of the userinfo routes (RFC 3986: userinfo = *( unreserved / pct-encoded /
+   sub-delims / ":" ) - the ":password" part is optional): user:password, a bare token used as user name, token with an empty
+   password, empty user with a password.  URL userinfo is always a credential - whatever its shape. *)
+UserinfoShapes == {"user-password", "token-only", "token-empty-password", "empty-user-password"}
+UserinfoRoutes == {"url-userinfo", "schema-userinfo"}
+UserinfoRedacted(r, shp, cfg) == SensCarrier(r, <<>>, cfg)
 
 ---------------------------------------------------------------------------
 (* Re-configuration within one process is a history.  The configuration API: configure(keys) / configure(markers) REPLACE that
@@ -195,22 +209,33 @@ HNames == <<<<88, 45, 67, 117, 115, 116, 111, 109>>,
    separator spelling ("; " or ";") are dimensions of the carrier; the expectation does not depend on them *)
 Positions == {"first", "middle", "last"}
 Separators == {"semicolon-space", "semicolon"}
-VARIABLES kind, nameIx, cfgKind, route, sink, sanitize, sens, omitted, pos, sep
-vars == <<kind, nameIx, cfgKind, route, sink, sanitize, sens, omitted, pos, sep>>
+VARIABLES kind, nameIx, cfgKind, route, sink, sanitize, sens, omitted, pos, sep, shape, fate
+vars == <<kind, nameIx, cfgKind, route, sink, sanitize, sens, omitted, pos, sep, shape, fate>>
 Init == \/ /\ kind = "name" /\ nameIx \in 1..Len(Pool) /\ cfgKind \in CfgKinds
            /\ route = "-" /\ sink = "-" /\ sanitize = TRUE /\ sens = FALSE /\ omitted = FALSE /\ pos = "-" /\ sep = "-"
+           /\ shape = "-" /\ fate = "-"
         \/ /\ kind = "cookie" /\ nameIx \in 1..Len(Pool) /\ cfgKind \in CfgKinds /\ route \in {"gen-cookie", "resp-set-cookie"}
            /\ pos \in Positions /\ sep \in Separators
-           /\ sink = "-" /\ sanitize = TRUE /\ sens = FALSE /\ omitted = FALSE
+           /\ sink = "-" /\ sanitize = TRUE /\ sens = FALSE /\ omitted = FALSE /\ shape = "-" /\ fate = "-"
+        \/ /\ kind = "userinfo" /\ nameIx = 0 /\ cfgKind \in CfgKinds /\ route \in UserinfoRoutes /\ shape \in UserinfoShapes
+           /\ sink = "-" /\ sanitize = TRUE /\ sens = FALSE /\ omitted = FALSE /\ pos = "-" /\ sep = "-" /\ fate = "-"
         \/ /\ kind = "flow" /\ nameIx = 0 /\ cfgKind = "-"
            /\ route \in Routes /\ sink \in Sinks /\ sanitize \in BOOLEAN /\ sens \in BOOLEAN /\ omitted \in BOOLEAN
-           /\ pos = "-" /\ sep = "-"
+           /\ pos = "-" /\ sep = "-" /\ shape = "-" /\ fate \in Fates
 Next == UNCHANGED vars
 Spec == Init /\ [][Next]_vars
 
 (* design-level facts checked on the family *)
 CaseInsensitive == kind = "name" => Sensitive(Pool[nameIx], Cfg(cfgKind)) = Sensitive(Lower(Pool[nameIx]), Cfg(cfgKind))
-OffMeansNothingAbsent == (kind = "flow" /\ ~sanitize) => ExpectedBy(route, sink, sanitize, sens, omitted) # "absent"
+OffMeansNothingAbsent == (kind = "flow" /\ ~sanitize) => ExpectedBy(route, sink, sanitize, sens, omitted, fate) # "absent"
+(* what must be absent does not depend on whether the request was answered; an unanswered request demands no more presence than an answered one *)
+FateNeverUnhides == kind = "flow" =>
+    /\ (ExpectedBy(route, sink, sanitize, sens, omitted, "answered") = "absent") = (ExpectedBy(route, sink, sanitize, sens, omitted, "no-response") = "absent")
+    /\ MustCarryBy(route, sink, omitted, "no-response") => MustCarryBy(route, sink, omitted, "answered")
+(* userinfo of every shape is redacted in every sink, answered or not *)
+UserinfoShapeAlwaysAbsent == kind = "userinfo" =>
+    /\ UserinfoRedacted(route, shape, Cfg(cfgKind))
+    /\ \A s \in Sinks, f \in Fates : ExpectedF(route, s, <<>>, TRUE, Cfg(cfgKind), f) = "absent"
 UserinfoAlwaysAbsent == kind = "name" => \A s \in Sinks : Expected("url-userinfo", s, Pool[nameIx], TRUE, Cfg(cfgKind)) = "absent"
 (* customising changes exactly Sensitive: same name, same flow, another cfg => the expectation differs only if Sensitive differs *)
 ExactlySensitive == kind = "name" =>
@@ -229,10 +254,13 @@ ASSUME EveryDefaultKeySensitive
 Export == IF kind = "cookie"
           THEN PrintT(<<"COOKIE", ToJson([name |-> Pool[nameIx], cfg |-> cfgKind, route |-> route, pos |-> pos, sep |-> sep,
                                            redacted |-> SensCarrier(route, Pool[nameIx], Cfg(cfgKind))])>>)
+          ELSE IF kind = "userinfo"
+          THEN PrintT(<<"USERINFO", ToJson([route |-> route, shape |-> shape, cfg |-> cfgKind,
+                                             redacted |-> UserinfoRedacted(route, shape, Cfg(cfgKind))])>>)
           ELSE IF kind = "name"
           THEN PrintT(<<"NAME", ToJson([name |-> Pool[nameIx], cfg |-> cfgKind, sensitive |-> Sensitive(Pool[nameIx], Cfg(cfgKind)),
                                          omitted |-> Omitted(Pool[nameIx]), isDefaultKey |-> Pool[nameIx] \in DefaultKeys,
                                          carrier |-> [r \in Routes |-> SensCarrier(r, Pool[nameIx], Cfg(cfgKind))]])>>)
-          ELSE PrintT(<<"FLOW", ToJson([route |-> route, sink |-> sink, sanitize |-> sanitize, sens |-> sens, omitted |-> omitted,
-                                         expected |-> ExpectedBy(route, sink, sanitize, sens, omitted)])>>)
+          ELSE PrintT(<<"FLOW", ToJson([route |-> route, sink |-> sink, sanitize |-> sanitize, sens |-> sens, omitted |-> omitted, fate |-> fate,
+                                         expected |-> ExpectedBy(route, sink, sanitize, sens, omitted, fate)])>>)
 =============================================================================
